@@ -7,11 +7,13 @@ mod gnet;
 mod gnode;
 mod gmisc;
 mod gproto;
+mod kadds;
 mod gsingle;
 
 fn main() {
     let mut cs = vec![gnet::check()];
     cs.extend(gsingle::checks());
     cs.extend(gmisc::checks());
+    cs.extend(kadds::checks());
     simkit::main_with(cs);
 }
